@@ -161,5 +161,9 @@ def _xarray_dataset(
     ds = xr.merge(to_merge, compat="override")
     for name in single_output_names:
         array = data_loader(name)
-        ds[name] = array if isinstance(array, np.ndarray) else ((), array)
+        if isinstance(array, np.ndarray) and array.ndim > 1:
+            # xarray only infers the dimension name for 1-dimensional data
+            ds[name] = (tuple(f"{name}_dim_{i}" for i in range(array.ndim)), array)
+        else:
+            ds[name] = array if isinstance(array, np.ndarray) else ((), array)
     return ds
